@@ -10,6 +10,7 @@ import z3
 
 from .contract import Contract
 from .pyexpr import ExprMixin, PyDictLit
+from .pymatch import MODE_KINDS, MatchMixin, PyPattern
 from .pyvals import (NONE, Exc, IntSeq, NoneVal, PAbs, PyCache, PyCallable, PyConst, PyGen, PyKey, PyList, PyMap, PyObj, PyOpt, PyRuleSeq, PyStrDict,
                      PyStrSet, PyTuple, StrSeq, Tok, TokSeq, Val, ValSeq, VAL_AXIOMS, clone, fresh, is_bool, is_int, is_seq,
                      is_str, is_tok, is_val, is_z3, tok_fields, truthy)
@@ -44,7 +45,7 @@ class Flow:
         self.kind, self.value = kind, value   # normal | return | raise | break | continue
 
 
-class Executor(ExprMixin):
+class Executor(MatchMixin, ExprMixin):
     def __init__(self, module_src: str, filename: str, contracts: dict, classes: dict, token_enum: dict, spec_funcs: dict,
                  solver_timeout_ms: int = 10000):
         self.src = module_src
@@ -63,6 +64,7 @@ class Executor(ExprMixin):
                         "tabsize": z3.IntVal(8)}
         for c in EXC_CLASSES:
             self.globals[c] = PyConst(c)
+        self.globals.update(self.stage2_globals())
         self.loop_counter = 0
         self._feas = z3.Solver()
         self._feas.set("timeout", 200)
@@ -166,6 +168,12 @@ class Executor(ExprMixin):
             return [fresh(prefix, ValSeq)]
         if ty == "pos":
             return [PyTuple([fresh(prefix + "_l", I), fresh(prefix + "_c", I)])]
+        if ty == "mode":
+            k = fresh(prefix + "_kind", I)
+            st.assume(z3.And(k >= 0, k <= 3))
+            return [PyObj("ModeView", {"kind": k, "parenlevel": fresh(prefix + "_lev", I)})]
+        if ty == "pattern":
+            return [PyPattern(fresh(prefix + "_kind", I), fresh(prefix + "_q", z3.StringSort()))]
         if ty.startswith("optv["):
             inner = self.mk(ty[5:-1], prefix, st)
             if len(inner) != 1:
@@ -219,8 +227,19 @@ class Executor(ExprMixin):
                 if len(alts) != 1:
                     raise Unsupported(f"optional field {cls}.{f} in a class shape (declare it per contract)")
                 o.fields[f] = alts[0]
-            for inv in shape.get("__invariant__", []):
-                pass
+            if shape.get("__invariant__"):
+                # class invariant of the abstraction (established by the only constructor call site, fields immutable afterwards:
+                # both facts are separate obligations, see the shape's comment)
+                si = St()
+                si.pc = st.pc
+                si.env = {"self": o}
+                was = self.assuming
+                self.assuming = True
+                try:
+                    for inv in shape["__invariant__"]:
+                        st.assume(Tr(self.spec_eval(inv, si)))
+                finally:
+                    self.assuming = was
             return [o]
         if ty.startswith("const:"):
             return [PyConst(ty[6:])]
@@ -550,7 +569,13 @@ class Executor(ExprMixin):
                 return
             o = o.fields.get(p)
         if isinstance(o, PyObj) and parts[-1] in o.fields:
-            o.fields[parts[-1]] = self.rel_fresh(o.fields[parts[-1]], prefix + path, path)
+            cur = o.fields[parts[-1]]
+            if isinstance(cur, PyObj) and cur.cls in self.classes:
+                # an object-valued location is overwritten: it now holds ANOTHER object (fresh identity, unconstrained fields);
+                # names still bound to the old object keep denoting the old one
+                o.fields[parts[-1]] = self.mk("obj:" + cur.cls, prefix + path, st)[0]
+            else:
+                o.fields[parts[-1]] = self.rel_fresh(cur, prefix + path, path)
 
     def havoc_for_loop(self, st, body, extra_paths=(), types=None):
         names, attrs, calls = self.assigned_in(body)
@@ -828,6 +853,12 @@ class Executor(ExprMixin):
             base = self.eval1(f.value, st)
             if is_seq(base):
                 return self.seq_mutation(e, st, base)
+        if isinstance(f, ast.Attribute) and f.attr in ("append", "pop") and isinstance(f.value, ast.Attribute) and f.value.attr == "end_progs":
+            stack = self.eval1(f.value, st)
+            if isinstance(stack, PyObj) and stack.cls == "EPStack":
+                def ke(p, vals):
+                    return self.epstack_method(p, self.eval1(f.value, p), f.attr, vals, e)
+                return self.bind(self.eval_list(list(e.args), st), ke)
         if isinstance(f, ast.Attribute) and f.attr == "join" and e.args and isinstance(e.args[0], (ast.GeneratorExp, ast.ListComp)):
             return [(st, fresh("joined", z3.StringSort()))]      # only ever printed / used as message text
         if any(isinstance(a, ast.Starred) for a in e.args):
@@ -835,7 +866,12 @@ class Executor(ExprMixin):
 
         def k(p, vals):
             fn, args = vals[0], vals[1:len(e.args) + 1]
-            kwargs = dict(zip([kw.arg for kw in e.keywords], vals[len(e.args) + 1:]))
+            kwargs = {}
+            for kname, kval in zip([kw.arg for kw in e.keywords], vals[len(e.args) + 1:]):
+                if kname is None and isinstance(kval, PyDictLit):
+                    kwargs.update(kval.d)           # f(**{...}) with a dict whose keys are known
+                else:
+                    kwargs[kname] = kval
             return self.apply(p, fn, args, kwargs, e)
         return self.bind(self.eval_list([f] + list(e.args) + [kw.value for kw in e.keywords], st), k)
 
@@ -860,6 +896,10 @@ class Executor(ExprMixin):
         if isinstance(fn, PyCallable):
             if fn.kind == "rulefn":
                 return self.call_rulefn(st, fn, node)
+            if fn.kind == "method" and isinstance(fn.bound, PyObj) and fn.bound.cls == "TokenizerState" and fn.name == "match":
+                return self.do_match(st, fn.bound, args[0], node)
+            if fn.kind == "method" and isinstance(fn.bound, PyObj) and fn.bound.cls == "Match":
+                return self.match_method(st, fn.bound, fn.name, args, node)
             if fn.kind == "method":
                 c = self.method_contract(fn.bound.cls, fn.name) if isinstance(fn.bound, PyObj) else None
                 if c is None:
@@ -881,6 +921,10 @@ class Executor(ExprMixin):
                 return [(st, self.make_exception(st, fn.name, args))]
             if fn.name == "TokenInfo":
                 return [(st, self.make_token(st, args, kwargs))]
+            if fn.name in MODE_KINDS:
+                return [(st, self.make_mode(fn.name, args))]
+            if fn.name == "EndProg":
+                return [(st, self.make_endprog(st, kwargs))]
             if fn.name in self.classes and "__init__" in self.classes[fn.name]:
                 o = PyObj(fn.name, {})
                 for f, init in self.classes[fn.name]["__init__"].items():
@@ -985,6 +1029,18 @@ class Executor(ExprMixin):
         if isinstance(v, PyCache) and name == "clear":
             v.present = z3.K(I, z3.BoolVal(False))
             return [(st, NONE)]
+        if isinstance(v, PyDictLit) and name == "get":
+            out = []
+            rest = st
+            for kk, vv in v.d.items():
+                hit = rest.clone()
+                hit.assume(a[0] == z3.StringVal(kk))
+                if self.feasible(hit, z3.BoolVal(True)):
+                    out.append((hit, vv))
+                rest.assume(a[0] != z3.StringVal(kk))
+            if self.feasible(rest, z3.BoolVal(True)):
+                out.append((rest, args[1] if len(args) > 1 else NONE))
+            return out
         if isinstance(v, PyStrDict) and name == "get":
             out = []
             rest = st
@@ -1123,6 +1179,9 @@ class Executor(ExprMixin):
         ss.pc = st.pc
         ss.env = env
         short = c.name.split(":")[1]
+        for pn, path in c.alias.items():
+            same = env.get(pn) is self._get_path(env, path)
+            self.vc(st, z3.BoolVal(bool(same)), "pre", f"argument `{pn}` of {short} is the object `{path}`", node.lineno)
         for r in c.requires:
             g = self.spec_eval(r, ss)
             self.vc(st, Tr(g), "pre", f"precondition `{r}` of {short}", node.lineno)
@@ -1184,6 +1243,8 @@ class Executor(ExprMixin):
             s2.env = dict(env2)
             s2.env["result"] = res
             s2.old = old
+            before = St()
+            before.pc = list(p.pc)
             ys = None
             if c.generator:
                 ys = fresh("ys", TokSeq)
@@ -1208,8 +1269,10 @@ class Executor(ExprMixin):
             if self.feasible(p, z3.BoolVal(True)):
                 out.append((p, res))
             elif len(results) == 1:
-                # vacuity guard: the callee's postcondition contradicts the caller's path
-                self.vc(p, z3.BoolVal(False), "vacuity", f"postcondition of {short} is consistent with the calling path", node.lineno)
+                # vacuity guard: the callee's postcondition contradicts the caller's path.  The obligation is stated against the path as it
+                # was BEFORE the postcondition was assumed (against the contradictory path it would be trivially true), so it fails
+                # whenever that path was reachable: a path must never disappear silently
+                self.vc(before, z3.BoolVal(False), "vacuity", f"postcondition of {short} is consistent with the calling path", node.lineno)
         return out
 
     # ------------------------------------------------------------------ builtins (b_<name>)
@@ -1251,6 +1314,11 @@ class Executor(ExprMixin):
             return [(st, z3.BoolVal(isinstance(v, PyTuple)))]
         if t == "TokenInfo":
             return [(st, z3.BoolVal(is_tok(v)))]
+        if isinstance(v, PyObj) and v.cls == "ModeView":
+            cls = st.env.get(t) if t in st.env else self.globals.get(t)
+            if isinstance(cls, PyConst) and cls.name in MODE_KINDS:
+                return [(st, v.fields["kind"] == MODE_KINDS[cls.name])]
+            raise Unsupported(f"isinstance(<mode>, {t})")
         if isinstance(v, PyObj):
             names = [x.strip() for x in t.replace("(", "").replace(")", "").replace("|", ",").split(",")]
             return [(st, z3.BoolVal(v.cls in names or ("ast." + v.cls) in names or v.cls.split(".")[-1] in [n.split(".")[-1] for n in names]))]
@@ -1413,8 +1481,12 @@ class Executor(ExprMixin):
             s.env = env
             if fn.args.vararg is not None:
                 s.env[fn.args.vararg.arg] = PyRuleSeq(fresh("alts", IntSeq)) if c.vararg == "seq[rulefn]" else PyConst("varargs")
+            for pn, path in c.alias.items():
+                s.env[pn] = self._get_path(s.env, path)
             if fn.args.kwarg is not None:
-                s.env[fn.args.kwarg.arg] = PyConst("kwargs")
+                extra = [n for n in c.params if n not in pnames and n != "self"]
+                # keyword arguments the contract names (e.g. add_prog(..., mode=, pattern=, quote=)) are the members of **kwargs
+                s.env[fn.args.kwarg.arg] = PyDictLit({n: s.env[n] for n in extra}) if extra else PyConst("kwargs")
             self.assuming = True
             for r in list(c.requires) + list(c.requires_assumed):
                 s.assume(Tr(self.spec_eval(r, s)))
